@@ -1807,9 +1807,10 @@ func (ctx *RenderContext) equals(a, b interface{}) bool {
 		return false
 	}
 
-	// Try numeric comparison
+	// Try numeric comparison (texts such as "nan" parse as a number that is
+	// not even equal to itself: those are compared as text)
 	if aNum, aok := ctx.toNumber(a); aok {
-		if bNum, bok := ctx.toNumber(b); bok {
+		if bNum, bok := ctx.toNumber(b); bok && aNum == aNum && bNum == bNum {
 			return aNum == bNum
 		}
 	}
